@@ -1,1 +1,512 @@
 import EventppVerif.Conc.CList
+import EventppVerif.Conc.CListInv
+import EventppVerif.Conc.CListLin
+import EventppVerif.Conc.CListVisit
+/-
+  Property C03 — one callback list used by any number of threads.
+
+  "With the multi-threaded policy, any number of threads may concurrently append, prepend, insert,
+  remove, query, enumerate, invoke and dispatch on one callback list …: every call returns without
+  deadlock, crash or memory error, and the results of the adding, removing and querying calls
+  together with the final listener order are those of some sequential execution of the same calls
+  that respects each thread's program order and the real-time order of non-overlapping calls, so
+  that each callback is removed successfully at most once and none is lost or duplicated.  Every
+  invocation or enumeration visits each callback that stayed in the list for its whole duration
+  exactly once, visits no callback twice, and respects list order."
+
+  Model (Conc/CList.lean): threads run lists of calls on ONE list object, the pointer model `CL` of
+  the sequential development.  `step s t` is one micro-step of thread `t`: the atomic counter
+  increment (`draw`), each critical section of the list mutex (`link`, `removeCs`, `ownsCs`,
+  `travStart`, `travNext`), each unlocked read (`emptyRead`, `insBefore`, `travCap`, `travCheck`),
+  each callback call (`travCall`).  A schedule is a list of thread ids; `Reach progs s` says `s` is
+  the state after some schedule from `init progs`.  All theorems quantify over every family of
+  thread programs and every schedule.  The counter wrap is outside this model (`draw` sets
+  `unsupported` instead of wrapping); the invariant below holds regardless of that flag.
+
+  The invariant (`Inv`, Conc/CListInv.lean):
+  * the list object represents a Spec list `SL` (`Rep s.list SL s.nextId`, the well-formedness of
+    the sequential development) — the ghost Spec list is unique and equals `specOf s`, the object
+    read through `head`/`next`;
+  * every pending `link … id c` of any thread has `1 ≤ c ≤ cur`, `id < nextId`, and node `id` is not
+    linked; distinct threads hold distinct pending nodes;
+  * every traversal in progress standing on node `n` satisfies the structural invariant `WalkV`:
+    following `next` from `n` walks a duplicate-free list `R` of removed nodes — allocated, NOT
+    pending, hence never written again — and then enters a suffix `S` of the live chain; no node the
+    invocation has called so far lies on `R ++ S` (except `n` itself once it has been dealt with);
+    the called nodes still in the list form a sublist of the chain before `S`; (in the window
+    invariant of Conc/CListVisit.lean, with `G` the nodes in the list when the invocation started)
+    every node of `G` still in the list has been called or lies ahead on `S`;
+  * each thread's program counter belongs to the call at the head of its program; no recorded
+    invocation has called a node twice; every record restricted to the live nodes is in list order.
+
+  What is proved:
+  1. `C03_wellformed`(`_meaning`), `C03_pending`: the invariant holds after every micro-step of
+     every interleaving.
+  2. `C03_linearizable` with the table `C03_table_*`, `C03_history`, `C03_program_order`,
+     `C03_real_time`, `C03_handles_new`, `C03_removed_once`, `C03_none_lost`: linearizability by
+     fixed linearization points, the ghost log is a legal sequential history, and its consequences.
+  3. `C03_progress`: no micro-step ever blocks.
+  4. `C03_visit_live`, `C03_call`, `C03_traversal_safe`, `C03_cb_stable`: what a traversal reads
+     and calls.  NOTE: "a removed callback is never called after its removal" is FALSE in the model
+     as in the source — the guard `node->counter != removedCounter` is read without the mutex, the
+     callback is called afterwards, and a `remove` may run in between (`C03_call_after_remove`).
+     What holds: the node was in the list when its guard was read.
+  5. `C03_visit_once`: no invocation calls a node twice; `C03_visit_all`: an invocation calls every
+     callback that is in the list from its start to its end; `C03_visit_order`: the callbacks an
+     invocation called that are still in the list were called in list order.
+  6. concrete 3-thread runs.
+  Not proved (see the comment at the end): that every call returns under a fair schedule
+  (termination); `C03_progress` only says that no step ever blocks.
+-/
+namespace Evp.ConcL
+open Evp
+
+/-! ### 1. well-formedness after every micro-step -/
+
+/-- **C03 (well-formedness).**  In every state reachable by any schedule of any thread programs the
+    list object represents a Spec list. -/
+theorem C03_wellformed {progs : List (List Call)} {s : State} (h : Reach progs s) :
+    ∃ SL, Rep s.list SL s.nextId := by
+  obtain ⟨SL, hw⟩ := inv_reach h
+  exact ⟨SL, hw.rep⟩
+
+/-- the Spec list is the one read through `head`/`next`; it is unique -/
+theorem C03_spec_unique {progs : List (List Call)} {s : State} (h : Reach progs s) :
+    Rep s.list (specOf s) s.nextId ∧ ∀ SL, Rep s.list SL s.nextId → SL = specOf s := by
+  obtain ⟨SL, hw⟩ := inv_reach h
+  rw [hw.spec]
+  exact ⟨hw.rep, fun SL' r => r.unique hw.rep⟩
+
+/-- **C03 (what well-formedness says).**  With `L` the `head`/`next` chain: `L` has no duplicates,
+    `head` starts it and the `next` of its last node is null, `tail`/`previous` walk it backwards, a
+    node is on the chain iff its counter is not `removedCounter`, the counters on the chain are in
+    `[1, currentCounter]`, all nodes on it were allocated, and no null pointer was ever
+    dereferenced. -/
+theorem C03_wellformed_meaning {progs : List (List Call)} {s : State} (h : Reach progs s) :
+    let L := chainOf s.list.heap (s.nextId + 1) s.list.head
+    L.Nodup ∧ Seg nextF s.list.heap s.list.head L none ∧ Seg prevF s.list.heap s.list.tail L.reverse none ∧
+    (∀ n, n ∈ L ↔ (s.list.heap n).counter ≠ 0) ∧
+    (∀ n ∈ L, 1 ≤ (s.list.heap n).counter ∧ (s.list.heap n).counter ≤ s.list.cur) ∧
+    (∀ n ∈ L, n < s.nextId) ∧ (∀ n, s.nextId ≤ n → (s.list.heap n).counter = 0) ∧ s.list.ub = false := by
+  obtain ⟨SL, r⟩ := C03_wellformed h
+  intro L
+  have hL : L = SL.ids := r.chain
+  rw [hL]
+  have w := r.wf
+  exact ⟨w.nodup, w.fwd, w.bwd, w.live, fun n hn => ⟨Nat.pos_of_ne_zero ((w.live n).mp hn), w.cnt n hn⟩,
+    w.lt, r.fresh, w.ub⟩
+
+/-- **C03 (pending links).**  A thread between its `draw` and its `link` holds a generation in
+    `[1, currentCounter]` and a node that is allocated and not linked; two threads never hold the
+    same node. -/
+theorem C03_pending {progs : List (List Call)} {s : State} (h : Reach progs s) :
+    (∀ t th k cb bf id c, getT s t = some th → th.pc = .link k cb bf id c →
+      1 ≤ c ∧ c ≤ s.list.cur ∧ id < s.nextId ∧ (s.list.heap id).counter = 0) ∧
+    (∀ t u th th' k cb bf c k' cb' bf' c' id, getT s t = some th → getT s u = some th' →
+      th.pc = .link k cb bf id c → th'.pc = .link k' cb' bf' id c' → t = u) := by
+  obtain ⟨SL, hw⟩ := inv_reach h
+  refine ⟨fun t th k cb bf id c hg hpc => (hw.thr t th hg).link k cb bf id c hpc, ?_⟩
+  intro t u th th' k cb bf c k' cb' bf' c' id hg hg' hpc hpc'
+  exact hw.uniq t u th th' id hg hg' (by rw [hpc]; rfl) (by rw [hpc']; rfl)
+
+/-- the invariant is inductive: it holds initially and every micro-step of every thread keeps it -/
+theorem C03_inv_init (progs : List (List Call)) : Inv (init progs) := ⟨[], invW_init progs⟩
+theorem C03_inv_step {s s' : State} {t : Nat} (h : Inv s) (hs : step s t = some s') : Inv s' := inv_step h hs
+
+/-! ### 2. linearizability -/
+
+/-- **C03 (linearization points).**  Every micro-step acts on the ghost Spec list `specOf s` exactly
+    as the table `specEffect` says: the table's list is the Spec list afterwards, and if the table
+    gives a result then this step records that result for the call at the head of the thread's
+    program and ends the call.  The table (`C03_table_*`): `link` is the Spec's `append` / `prepend` /
+    `insert` with the new handle as result, `removeCs` the Spec's `remove` with its verdict, `ownsCs`
+    and `emptyRead` read `present` / `isEmpty`; every other micro-step — `draw`, `insBefore`, all
+    traversal steps, starting a call — leaves the Spec list unchanged and records no result for an
+    adding, removing or querying call.  So each such call takes effect at exactly one micro-step. -/
+theorem C03_linearizable {s s' : State} {t : Nat} {th : Thread} (h : Inv s)
+    (hg : getT s t = some th) (hs : step s t = some s') :
+    specOf s' = (specEffect th.pc (specOf s)).1 ∧
+    (∀ r, (specEffect th.pc (specOf s)).2 = some r →
+      th.prog.head? = callOf th.pc ∧
+      ∃ th', getT s' t = some th' ∧ th'.rets = th.rets ++ [r] ∧ th'.prog = th.prog.tail ∧ th'.pc = .idle) ∧
+    ((specEffect th.pc (specOf s)).2 = none →
+      ∃ th', getT s' t = some th' ∧ (th'.rets = th.rets ∨ (callOf th.pc = some .invoke ∧ th'.rets = th.rets ++ [.unit]))) ∧
+    (∀ v, v ≠ t → getT s' v = getT s v) := by
+  obtain ⟨SL, hw⟩ := h
+  have hst := invW_step hw hg hs
+  obtain ⟨th', hsh⟩ := step_shape hg hs
+  rw [hst.1.spec, hw.spec]
+  refine ⟨rfl, fun r hr => ⟨?_, hst.2 r hr⟩, fun hn => ⟨th', hsh.getT_self hg, ?_⟩, fun v hv => hsh.getT_other hv⟩
+  · cases hc : callOf th.pc with
+    | none => cases hpc : th.pc <;> rw [hpc] at hc hr <;> simp [callOf, specEffect] at hc hr
+    | some c => exact (hw.thr t th hg).call c hc
+  · rcases hsh.2.2.2 with h4 | h4
+    · exact Or.inl h4.2.1
+    · rcases h4.2.2 with h5 | h5
+      · obtain ⟨c, r, _, h2, _⟩ := lin_table h5 SL
+        rw [hn] at h2; cases h2
+      · exact Or.inr h5
+
+theorem C03_table_append (cb bf id c) (SL : SList) :
+    specEffect (.link 0 cb bf id c) SL = (SL.append id cb, some (.handle id)) := rfl
+theorem C03_table_prepend (cb bf id c) (SL : SList) :
+    specEffect (.link 1 cb bf id c) SL = (SL.prepend id cb, some (.handle id)) := rfl
+theorem C03_table_insert (cb bf id c) (SL : SList) :
+    specEffect (.link 2 cb bf id c) SL = (SL.insert id cb bf, some (.handle id)) := rfl
+theorem C03_table_remove (h : Hd) (SL : SList) :
+    specEffect (.removeCs h) SL = ((SL.remove h).1, some (.bool (SL.remove h).2)) := rfl
+theorem C03_table_owns (h : Hd) (SL : SList) :
+    specEffect (.ownsCs h) SL = (SL, some (.bool (SL.present h))) := rfl
+theorem C03_table_empty (SL : SList) :
+    specEffect .emptyRead SL = (SL, some (.bool SL.isEmpty)) := rfl
+/-- every other micro-step has no effect and no result -/
+theorem C03_table_other (pc : PC) (hl : pc.isLin = false) (SL : SList) : specEffect pc SL = (SL, none) := by
+  cases pc <;> simp [PC.isLin] at hl <;> rfl
+
+/-- **C03 (the log is a legal sequential history).**  Replay any schedule from the start; `logOf`
+    records `(thread, call, result)` at every linearization step, where `call` is the head of the
+    thread's program and `result` the value the step appended to the thread's results (see
+    `linEntry`).  Running the logged calls one after the other on the Spec, starting from the empty
+    list, every logged result is the result the Spec gives (`specRun` is `some`), and the list the
+    Spec ends with is the final list of the concurrent run. -/
+theorem C03_history (progs : List (List Call)) (sched : List Nat) :
+    specRun [] (logOf (init progs) sched) = some (specOf (exec (init progs) sched)) := by
+  obtain ⟨SLf, h1, h2⟩ := log_legal (invW_init progs) sched
+  rw [h1.spec]; exact h2
+
+/-- the same from any state satisfying the invariant (e.g. any reachable state) -/
+theorem C03_history_from {s : State} (h : Inv s) (sched : List Nat) :
+    specRun (specOf s) (logOf s sched) = some (specOf (exec s sched)) := by
+  obtain ⟨SL, hw⟩ := h
+  obtain ⟨SLf, h1, h2⟩ := log_legal hw sched
+  rw [h1.spec, hw.spec]; exact h2
+
+/-- **C03 (program order).**  The adding, removing and querying calls of thread `t` appear in the log
+    in the order of `t`'s program: they are a prefix of these calls of the program, the rest being
+    the ones `t` has not completed. -/
+theorem C03_program_order (progs : List (List Call)) (sched : List Nat) (t : Nat) :
+    callsIn (logOf (init progs) sched) t ++ pendingCalls (exec (init progs) sched) t
+      = ((progs[t]?).getD []).filter (fun c => c != .invoke) := by
+  rw [program_order (invW_init progs) sched t]
+  unfold pendingCalls
+  show (match (progs.map (fun p => ({ prog := p } : Thread)))[t]? with
+    | some th => th.prog.filter (fun c => c != Call.invoke) | none => []) = _
+  rw [List.getElem?_map]
+  cases progs[t]? <;> rfl
+
+/-- **C03 (real-time order).**  The log is written in schedule order: the log of a schedule `a ++ b`
+    is the log of `a` followed by the log of `b` from the state `a` leads to.  Every entry is written
+    by a micro-step of the call it records (its last one), so if call A returns before call B starts
+    — A's last step is in `a`, B's first step in `b` — then A's entry precedes B's. -/
+theorem C03_real_time (s : State) (a b : List Nat) :
+    logOf s (a ++ b) = logOf s a ++ logOf (exec s a) b ∧ exec s (a ++ b) = exec (exec s a) b :=
+  ⟨logOf_append s a b, exec_append s a b⟩
+
+/-- **C03 (handles are new).**  The handles returned by the adding calls of a run are pairwise
+    distinct. -/
+theorem C03_handles_new (progs : List (List Call)) (sched : List Nat) :
+    (adds (logOf (init progs) sched)).Nodup := (adds_fresh (invW_init progs) sched).2
+
+/-- **C03 (removed at most once).**  In the log of any run, the handles of the `remove` calls that
+    returned `true` are pairwise distinct: each callback is removed successfully at most once. -/
+theorem C03_removed_once (progs : List (List Call)) (sched : List Nat) :
+    (rems (logOf (init progs) sched)).Nodup := by
+  have hf := adds_fresh (invW_init progs) sched
+  exact rems_nodup _ (C03_history progs sched) (fun a _ => by simp) hf.2
+
+/-- **C03 (none lost, none duplicated).**  The final list holds exactly the handles that were handed
+    out and not removed successfully, each once. -/
+theorem C03_none_lost (progs : List (List Call)) (sched : List Nat) :
+    let final := specOf (exec (init progs) sched)
+    let log := logOf (init progs) sched
+    (∀ x, x ∈ final.ids ↔ x ∈ adds log ∧ x ∉ rems log) ∧ final.ids.Nodup := by
+  intro final log
+  have hf := adds_fresh (invW_init progs) sched
+  refine ⟨fun x => ?_, ?_⟩
+  · have := ids_final _ (C03_history progs sched) (fun a _ => by simp) hf.2 x
+    simpa using this
+  · obtain ⟨SLf, h1, _⟩ := log_legal (invW_init progs) sched
+    show (specOf (exec (init progs) sched)).ids.Nodup
+    rw [h1.spec]; exact h1.rep.wf.nodup
+
+/-! ### 3. no deadlock -/
+
+/-- **C03 (progress).**  No micro-step ever blocks: every thread that has not finished its program
+    can take its next step in every state (critical sections are atomic steps; the locks are not
+    held across steps). -/
+theorem C03_progress {s : State} {t : Nat} {th : Thread} (hg : getT s t = some th)
+    (hu : th.pc ≠ .idle ∨ th.prog ≠ []) : ∃ s', step s t = some s' := by
+  unfold step
+  rw [hg]
+  simp only
+  cases hpc : th.pc with
+  | idle =>
+    simp only
+    cases hprog : th.prog with
+    | nil => rcases hu with hu | hu; exact absurd hpc hu; exact absurd hprog hu
+    | cons c rest => cases c <;> exact ⟨_, rfl⟩
+  | draw k cb b => simp only; split <;> exact ⟨_, rfl⟩
+  | travCap node => cases node <;> exact ⟨_, rfl⟩
+  | travCheck n cap => simp only; split <;> exact ⟨_, rfl⟩
+  | travNext n cap => simp only; split <;> exact ⟨_, rfl⟩
+  | _ => exact ⟨_, rfl⟩
+
+/-- a step is refused only to a thread that does not exist or has finished -/
+theorem C03_progress' {s : State} {t : Nat} (hs : step s t = none) :
+    getT s t = none ∨ ∃ th, getT s t = some th ∧ th.pc = .idle ∧ th.prog = [] := by
+  cases hg : getT s t with
+  | none => exact Or.inl rfl
+  | some th =>
+    refine Or.inr ⟨th, rfl, ?_⟩
+    by_cases h1 : th.pc = .idle
+    · by_cases h2 : th.prog = []
+      · exact ⟨h1, h2⟩
+      · obtain ⟨s', h⟩ := C03_progress hg (Or.inr h2); rw [hs] at h; cases h
+    · obtain ⟨s', h⟩ := C03_progress hg (Or.inl h1); rw [hs] at h; cases h
+
+/-! ### 4. what a traversal reads and calls -/
+
+/-- **C03 (memory safety and termination of the walk).**  Whenever a traversal holds node `n` (after
+    reading `head`, at the guard, at the call, at `node = node->next`), `n` is an allocated node,
+    and following `next` from `n` is a finite duplicate-free chain ending in null: removed nodes `R`
+    followed by a suffix `S` of the list as it is now.  This holds whatever the other threads have
+    done since the traversal reached `n`. -/
+theorem C03_traversal_safe {progs : List (List Call)} {s : State} (h : Reach progs s) {t : Nat}
+    {th : Thread} {n : Nat} (hg : getT s t = some th) (hn : th.pc.node = some n) :
+    n < s.nextId ∧ ∃ R S : List Nat,
+      chainOf s.list.heap (s.nextId + 1) (some n) = R ++ S ∧
+      Seg nextF s.list.heap (some n) (R ++ S) none ∧ (R ++ S).Nodup ∧ (R ++ S).head? = some n ∧
+      (∀ x ∈ R ++ S, x < s.nextId) ∧
+      (∀ x ∈ R, (s.list.heap x).counter = 0) ∧ S <:+ (specOf s).ids := by
+  obtain ⟨SL, hw⟩ := inv_reach h
+  rw [hw.spec]
+  obtain ⟨h0, R, S, h1, h2, h3, h4, h5, _, h7, h8, _⟩ := walkV_chain hw.rep ((hw.thr t th hg).walk n hn)
+  exact ⟨h0, R, S, h3, h7, h4, h5, h8, h2, h1⟩
+
+/-- **C03 (a called callback was in the list when its guard was read).**  If the guard step of a
+    traversal (`travCheck n cap`) admits node `n` — the thread's next step calls `n`'s callback —
+    then at that moment `n` is in the list, with the callback stored in the node, and its generation
+    is at most the captured one. -/
+theorem C03_visit_live {progs : List (List Call)} {s : State} (h : Reach progs s) {t : Nat}
+    {th : Thread} {n cap : Nat} (hg : getT s t = some th) (hpc : th.pc = .travCheck n cap) :
+    step s t = some (goto s t th (if guard (s.list.heap n).counter cap then .travCall n cap else .travNext n cap)) ∧
+    (guard (s.list.heap n).counter cap = true →
+      (s.list.heap n).counter ≠ 0 ∧ (s.list.heap n).counter ≤ cap ∧ n ∈ (specOf s).ids ∧
+      (⟨n, (s.list.heap n).cb⟩ : Entry) ∈ specOf s) := by
+  refine ⟨step_travCheck hg hpc, fun hgd => ?_⟩
+  obtain ⟨SL, hw⟩ := inv_reach h
+  rw [hw.spec]
+  have h0 : (s.list.heap n).counter ≠ 0 ∧ (s.list.heap n).counter ≤ cap := by
+    simpa [guard] using hgd
+  have hm : n ∈ SL.ids := (hw.rep.wf.live n).mpr h0.1
+  refine ⟨h0.1, h0.2, hm, ?_⟩
+  obtain ⟨e, he, hid⟩ := List.mem_map.mp hm
+  have := hw.rep.cbs e he
+  have hid' : e.id = n := hid
+  rw [hid'] at this
+  rw [this, ← hid']
+  exact he
+
+/-- **C03 (the call step).**  At `travCall n cap` the thread records `(n, callback stored in n)`;
+    `n` is an allocated node that has been linked (it is not pending), so by `C03_cb_stable` the
+    stored callback is the one `n` was added with; if `n` is still in the list it is the callback of
+    `n`'s entry. -/
+theorem C03_call {progs : List (List Call)} {s : State} (h : Reach progs s) {t : Nat}
+    {th : Thread} {n cap : Nat} (hg : getT s t = some th) (hpc : th.pc = .travCall n cap) :
+    (∃ th', step s t = some (setT s t th') ∧ th'.pc = .travNext n cap ∧
+      curVisit th' = curVisit th ++ [(n, (s.list.heap n).cb)]) ∧
+    n < s.nextId ∧ ¬ Pend s.threads n ∧
+    ((s.list.heap n).counter ≠ 0 → (⟨n, (s.list.heap n).cb⟩ : Entry) ∈ specOf s) := by
+  obtain ⟨SL, hw⟩ := inv_reach h
+  rw [hw.spec]
+  have hwk := (hw.thr t th hg).walk n (by rw [hpc]; rfl)
+  obtain ⟨a1, a2⟩ := walkV_node hw.rep (fun x hx => (hw.pend_counter x hx).1) hwk
+  refine ⟨⟨_, step_travCall hg hpc, rfl, addVisit_curVisit _ _ _⟩, a1, a2, fun h0 => ?_⟩
+  have hm : n ∈ SL.ids := (hw.rep.wf.live n).mpr h0
+  obtain ⟨e, he, hid⟩ := List.mem_map.mp hm
+  have := hw.rep.cbs e he
+  have hid' : e.id = n := hid
+  rw [hid'] at this
+  rw [this, ← hid']
+  exact he
+
+/-- **C03 (stored callbacks never change).**  A micro-step changes the callback stored in a node only
+    if it is the `link` of that node. -/
+theorem C03_cb_stable {s s' : State} {t : Nat} {th : Thread} (h : Inv s)
+    (hg : getT s t = some th) (hs : step s t = some s') (x : Nat)
+    (hx : ∀ k cb bf c, th.pc ≠ .link k cb bf x c) :
+    (s'.list.heap x).cb = (s.list.heap x).cb := by
+  obtain ⟨SL, hw⟩ := h
+  refine cb_stable hw hg hs x ?_
+  intro hp
+  cases hpc : th.pc <;> rw [hpc] at hp <;> simp [PC.pendId] at hp
+  subst hp
+  exact hx _ _ _ _ hpc
+
+/-! ### 5. no callback is called twice -/
+
+/-- **C03 (visits no callback twice).**  In every reachable state, every invocation record of every
+    thread — finished or in progress — lists pairwise distinct nodes. -/
+theorem C03_visit_once {progs : List (List Call)} {s : State} (h : Reach progs s) {t : Nat}
+    {th : Thread} (hg : getT s t = some th) : ∀ V ∈ th.visits, (V.map (·.1)).Nodup := by
+  obtain ⟨SL, hw⟩ := inv_reach h
+  exact (hw.thr t th hg).vis
+
+/-- **C03 (visits every callback that stays in the list).**  Let `s0` be a reachable state in which
+    thread `t` is about to read `head` for an invocation (`travStart`), run any schedule from it, and
+    suppose that in the state reached `t` is about to end that same invocation (its program is still
+    the one it had in `s0` — a program only ever loses its head, when a call ends — and its next step
+    is the final one: `head` was null, or `node->next` is null).  Then every handle that was in the
+    list in `s0` and is in the list now has been called by this invocation.  (A handle in the list at
+    both moments was in the list all the time between: handles are never re-issued.)  With
+    `C03_visit_once`: exactly once. -/
+theorem C03_visit_all {progs : List (List Call)} {s0 : State} (h0 : Reach progs s0) {t : Nat}
+    {th0 : Thread} (hg0 : getT s0 t = some th0) (hpc0 : th0.pc = .travStart) (sched : List Nat)
+    {th : Thread} (hg : getT (exec s0 sched) t = some th) (hprog : th.prog = th0.prog)
+    (hend : th.pc = .travCap none ∨
+      ∃ n cap, th.pc = .travNext n cap ∧ ((exec s0 sched).list.heap n).next = none) :
+    (∀ x, x ∈ (specOf s0).ids → x ∈ (specOf (exec s0 sched)).ids → x ∈ curV th) ∧
+    step (exec s0 sched) t = some (finish (exec s0 sched) t th .unit) := by
+  obtain ⟨SL0, hw0⟩ := inv_reach h0
+  obtain ⟨SL, hw⟩ := inv_exec ⟨SL0, hw0⟩ sched
+  have hwin := win_exec (win_start hw0 hg0 hpc0) sched
+  have := win_end hwin hg hprog hend
+  rw [hw0.spec, hw.spec]
+  refine ⟨fun x hx0 hx => this x hx0 ((hw.rep.wf.live x).mp hx), ?_⟩
+  rcases hend with hc | ⟨n, cap, hpc, hnx⟩
+  · exact step_travCap_none hg hc
+  · exact step_travNext_none hg hpc hnx
+
+/-- **C03 (respects list order).**  In every reachable state, every invocation record of every
+    thread — finished or in progress — restricted to the nodes that are still in the list, is in list
+    order: it is a sublist of the list's chain.  In particular when an invocation ends, the callbacks
+    it called that are still registered were called in the order of the list. -/
+theorem C03_visit_order {progs : List (List Call)} {s : State} (h : Reach progs s) {t : Nat}
+    {th : Thread} (hg : getT s t = some th) :
+    ∀ V ∈ th.visits, ((V.map (·.1)).filter (fun v => decide (v ∈ (specOf s).ids))).Sublist (specOf s).ids := by
+  obtain ⟨SL, hw⟩ := inv_reach h
+  rw [hw.spec]
+  intro V hV
+  have := (hw.thr t th hg).ord V hV
+  unfold liveIn at this
+  have e : (V.map (·.1)).filter (fun v => decide (v ∈ SL.ids)) =
+      (V.map (·.1)).filter (fun v => (s.list.heap v).counter != 0) := by
+    apply List.filter_congr
+    intro v _
+    rw [Bool.eq_iff_iff]
+    simp [hw.rep.wf.live v]
+  rw [e]; exact this
+
+/-! ### 6. non-vacuity: concrete runs -/
+
+/-- thread 0 fills the list with callbacks 10, 11, 12 (handles 0, 1, 2) and invokes; thread 1 removes
+    handle 1; thread 2 inserts callback 30 before handle 1 -/
+def c03Progs : List (List Call) :=
+  [[.append 10, .append 11, .append 12, .invoke], [.remove 1], [.insert 30 1]]
+
+/-- the invoker calls node 0; the inserter reads `before` and draws; the invoker moves to node 1;
+    the remover removes it; the invoker sees it removed; the inserter links (at the back: its
+    `before` is gone); the invoker walks on from the removed node, calls node 2, skips the new node 3
+    (generation 4 > captured 3) and ends -/
+def c03Sched : List Nat :=
+  [0,0,0, 0,0,0, 0,0,0,  0,0,0,0,0,  2,2,2,  0,  1,1,  0,  2,  0,0,0,0,0,0,0]
+
+/-- the inserter links before the remover runs: the new node goes before node 1 -/
+def c03Sched2 : List Nat :=
+  [0,0,0, 0,0,0, 0,0,0,  0,0,0,0,0,  2,2,2,2,  0,  1,1,  0,  0,0,0,0,0,0,0,0,0,0]
+
+example :
+    let s := exec (init c03Progs) c03Sched
+    s.threads.map (·.rets) = [[.handle 0, .handle 1, .handle 2, .unit], [.bool true], [.handle 3]] ∧
+    s.threads.map (·.visits) = [[[(0, 10), (2, 12)]], [], []] ∧
+    s.threads.map (·.prog) = [[], [], []] ∧
+    chainOf s.list.heap (s.nextId + 1) s.list.head = [0, 2, 3] ∧
+    specOf s = [⟨0, 10⟩, ⟨2, 12⟩, ⟨3, 30⟩] ∧ s.unsupported = false ∧
+    logOf (init c03Progs) c03Sched =
+      [(0, .append 10, .handle 0), (0, .append 11, .handle 1), (0, .append 12, .handle 2),
+       (1, .remove 1, .bool true), (2, .insert 30 1, .handle 3)] := by
+  decide +kernel
+
+example :
+    let s := exec (init c03Progs) c03Sched2
+    s.threads.map (·.rets) = [[.handle 0, .handle 1, .handle 2, .unit], [.bool true], [.handle 3]] ∧
+    s.threads.map (·.visits) = [[[(0, 10), (2, 12)]], [], []] ∧
+    specOf s = [⟨0, 10⟩, ⟨3, 30⟩, ⟨2, 12⟩] ∧
+    logOf (init c03Progs) c03Sched2 =
+      [(0, .append 10, .handle 0), (0, .append 11, .handle 1), (0, .append 12, .handle 2),
+       (2, .insert 30 1, .handle 3), (1, .remove 1, .bool true)] := by
+  decide +kernel
+
+/-- the theorems instantiated on the first run -/
+example : ∃ SL, Rep (exec (init c03Progs) c03Sched).list SL (exec (init c03Progs) c03Sched).nextId :=
+  C03_wellformed ⟨c03Sched, rfl⟩
+
+example : specRun [] (logOf (init c03Progs) c03Sched) = some [⟨0, 10⟩, ⟨2, 12⟩, ⟨3, 30⟩] := by
+  rw [C03_history]; decide +kernel
+
+/-- a state in the middle of that run in which all three threads are inside a call: the invoker at
+    the guard of node 1, the remover in front of its critical section, the inserter holding the
+    pending node 3 with generation 4 -/
+example :
+    let s := exec (init c03Progs) (c03Sched.take 19)
+    s.threads.map (·.pc) = [.travCheck 1 3, .removeCs 1, .link 2 30 1 3 4] := by
+  decide +kernel
+
+/-- the state of the first run in which thread 0 is about to read `head` -/
+def c03S0 : State := exec (init c03Progs) (c03Sched.take 10)
+/-- the rest of the first run up to thread 0's last step -/
+def c03Win : List Nat := (c03Sched.drop 10).take 17
+
+/-- `C03_visit_all` instantiated on the first run: the window from thread 0's `travStart` to the
+    state before its last step; the list was `[0, 1, 2]` at the start and is `[0, 2, 3]` at the end,
+    and the invocation has called 0 and 2. -/
+example :
+    (specOf c03S0).ids = [0, 1, 2] ∧ (specOf (exec c03S0 c03Win)).ids = [0, 2, 3] ∧
+    ∀ th, getT (exec c03S0 c03Win) 0 = some th →
+      ∀ x, x ∈ (specOf c03S0).ids → x ∈ (specOf (exec c03S0 c03Win)).ids → x ∈ curV th := by
+  refine ⟨by decide +kernel, by decide +kernel, fun th hg => ?_⟩
+  have h0 : Reach c03Progs c03S0 := ⟨_, rfl⟩
+  have e0 : (getT c03S0 0).map (fun th => (th.pc, th.prog)) = some (.travStart, [.invoke]) := by
+    decide +kernel
+  have e1 : (getT (exec c03S0 c03Win) 0).map (fun th => (th.pc, th.prog)) = some (.travNext 3 3, [.invoke]) := by
+    decide +kernel
+  have e2 : (((exec c03S0 c03Win).list.heap 3).next) = none := by decide +kernel
+  cases hg0 : getT c03S0 0 with
+  | none => rw [hg0] at e0; cases e0
+  | some th0 =>
+    rw [hg0] at e0
+    rw [hg] at e1
+    simp only [Option.map_some, Option.some.injEq, Prod.mk.injEq] at e0 e1
+    exact (C03_visit_all h0 hg0 e0.1 c03Win hg (by rw [e1.2, e0.2]) (Or.inr ⟨3, 3, e1.1, e2⟩)).1
+
+/-- **a callback can be called after its removal** (why `C03_visit_live` speaks about the guard step):
+    thread 0 appends callback 10 and invokes; after its guard has admitted node 0, thread 1 removes
+    handle 0 successfully; thread 0's next step still calls callback 10. -/
+def c03ProgsCE : List (List Call) := [[.append 10, .invoke], [.remove 0]]
+
+theorem C03_call_after_remove :
+    let s := exec (init c03ProgsCE) [0,0,0, 0,0,0,0, 1,1]
+    s.threads.map (·.pc) = [.travCall 0 1, .idle] ∧ s.threads.map (·.rets) = [[.handle 0], [.bool true]] ∧
+    (s.list.heap 0).counter = 0 ∧ specOf s = [] ∧
+    (exec s [0]).threads.map (·.visits) = [[[(0, 10)]], []] := by
+  decide +kernel
+
+/-
+  NOT PROVED (termination):
+
+    "every call returns" in the sense that every fair schedule completes every call.
+
+  `C03_progress` shows that no micro-step ever blocks (there is no deadlock: whichever thread is
+  scheduled can move), and `C03_traversal_safe` that the walk ahead of a traversal is finite in every
+  state.  That every call completes after finitely many of its own steps is immediate for the
+  adding, removing and querying calls (at most four micro-steps each, see `step`).  For an
+  invocation it needs a measure that decreases with each of its steps although other threads may
+  lengthen the chain ahead of it: with finite programs the number of nodes ever allocated is bounded
+  by the number of adding calls, and a traversal never walks a node twice, so
+  `3 * (bound - walked) + phase` would do; this needs the set of *walked* (not only *called*) nodes
+  in `WalkV` and is not done.  (With unbounded programs a traversal can be outrun forever by a
+  thread that keeps appending — in the model as in the source.)  The counter wrap is outside the
+  model: a `draw` that would wrap sets `unsupported` and does not advance.
+-/
+
+end Evp.ConcL
